@@ -333,7 +333,11 @@ class Ctx:
 
     def tie_broken(self, name, detail=''):
         """A theorem / translator obligation / correspondence that no longer checks."""
-        self.broken.append({'name': name, 'detail': detail[-4000:]})
+        for b in self.broken:
+            if b['name'] == name:
+                b['count'] = b.get('count', 1) + 1
+                return
+        self.broken.append({'name': name, 'detail': detail[-4000:], 'count': 1})
 
     # --- output
     def write_replay(self, payload):
